@@ -290,6 +290,10 @@ def c10(ctx):
     ov, label = composer_runs(ctx)[-1]
     ctx.tlc_pipe("MC_Composer.tla", "MC_Composer.cfg", ["composer-replay"], overrides=ov, timeout=3000,
                  env_extra={"VERIF_TWIN_URIS": "1"}, label="exhaustive replay, twin URIs: " + label)
+    # ... and with an initial document that holds members which only resemble the key / service lists (verificationMethod,
+    # publicKeys, services, Service, authentication): they stay as they are, and stay out of the lists
+    ctx.tlc_pipe("MC_Composer.tla", "MC_Composer.cfg", ["composer-replay"], overrides=ov, timeout=3000,
+                 env_extra={"VERIF_DECOYS": "1"}, label="exhaustive replay, decoy members: " + label)
     ctx.negctl_replay(["composer-replay"], first, bump_doc)
     # RFC 6902 on arrays (PatchArray.tla): every list of <= MaxOps operations on every array of <= MaxArr elements
     pa = {"MaxArr": 2, "MaxOps": 2} if ctx.tier == "quick" else {"MaxArr": 3, "MaxOps": 2, "Vals": "{1, 2}"}
